@@ -409,7 +409,10 @@ class WSGITask(Task):
 
             self.status = status
 
-            # Prepare the headers for output
+            # Prepare the headers for output (keep what was checked, not the
+            # application's own item objects, which it may change later)
+            checked_headers = []
+
             for k, v in headers:
                 if not isinstance(k, str):
                     raise AssertionError(
@@ -437,8 +440,9 @@ class WSGITask(Task):
                         '%s is a "hop-by-hop" header; it cannot be used by '
                         "a WSGI application (see PEP 3333)" % k
                     )
+                checked_headers.append((k, v))
 
-            self.response_headers.extend(headers)
+            self.response_headers.extend(checked_headers)
 
             # Return a method used to write the response data.
             return self.write
